@@ -5,7 +5,9 @@ import (
 	"flag"
 	"fmt"
 	"net"
+	"runtime"
 	"sync"
+	"sync/atomic"
 	"time"
 
 	"github.com/cloudwego/netpoll"
@@ -62,6 +64,66 @@ func shardQueue(rounds int) int {
 	return done
 }
 
+// mockConn is the minimum of a netpoll.Connection that ShardQueue uses: the queue's own words (shards, trigger ring,
+// counters) are exercised at full speed, without the cost of a socket per flush.
+type mockConn struct {
+	netpoll.Connection
+	w mockWriter
+}
+
+func (c *mockConn) IsActive() bool         { return true }
+func (c *mockConn) Writer() netpoll.Writer { return &c.w }
+func (c *mockConn) Close() error           { return nil }
+
+type mockWriter struct {
+	netpoll.Writer
+	flushed int32
+}
+
+func (w *mockWriter) Append(netpoll.Writer) error { return nil }
+func (w *mockWriter) Flush() error                { atomic.AddInt32(&w.flushed, 1); return nil }
+
+// ShardQueue, concurrent Adds in its contract ("any number of goroutines Add"): many adders on many shards, yielding now and
+// then so that shards keep draining to empty - every Add that finds its shard empty goes through triggering() (the trigger
+// ring under listLock, the trigger counter) while the worker task consumes the ring; Close at the end.
+func shardQueueBurst(rounds int, seed int64) int {
+	done := 0
+	for k := 0; k < rounds; k++ {
+		shards := []int{2, 4, 8, 8}[(int(seed)+k)%4]
+		adders := 4 + (int(seed)+k)%5
+		yieldEvery := 2 + (int(seed)+k)%5
+		q := mux.NewShardQueue(shards, &mockConn{})
+		var getter mux.WriterGetter = func() (netpoll.Writer, bool) { return nil, true }
+		start := make(chan struct{})
+		var wg sync.WaitGroup
+		for g := 0; g < adders; g++ {
+			wg.Add(1)
+			go func() {
+				defer wg.Done()
+				<-start
+				for i := 0; i < 4000; i++ {
+					q.Add(getter)
+					if i%yieldEvery == 0 {
+						runtime.Gosched()
+					}
+				}
+			}()
+		}
+		close(start)
+		wg.Wait()
+		closed := make(chan struct{})
+		go func() { q.Close(); close(closed) }()
+		select {
+		case <-closed:
+		case <-time.After(20 * time.Second):
+			// lost getters (C17) keep Close spinning; the race workload only records that the round did not finish
+			return done
+		}
+		done++
+	}
+	return done
+}
+
 func main() {
 	seed := flag.Int64("seed", 1, "")
 	n := flag.Int("n", 40, "")
@@ -69,7 +131,7 @@ func main() {
 	flag.Parse()
 	counts := netpoll.VerifRaceWorkloads(*seed, *n, *which)
 	if *which == "" || *which == "shardqueue" {
-		counts["shardqueue"] = shardQueue(*n/8 + 1)
+		counts["shardqueue"] = shardQueue(*n/8+1) + shardQueueBurst(*n/8+1, *seed)
 	}
 	fmt.Println("workloads", counts)
 }
